@@ -202,6 +202,9 @@ func c05Exec(t *testing.T, sc *gen.Scenario, trace bool) *harness.Outcome {
 		}
 		faulty := sc.Knob("faults", 0) != 0
 		limit := int(sc.Knob("lo_limit", 0))
+		if sc.Knob("streamed", 0) == 1 {
+			limit = 0 // the result limit is a property of the unary API; the stream is unbounded
+		}
 		deadline := 3 * time.Second
 		if v := sc.Knob("lo_deadline_us", 0); v > 0 {
 			deadline = time.Duration(v) * time.Microsecond
@@ -218,9 +221,11 @@ func c05Exec(t *testing.T, sc *gen.Scenario, trace bool) *harness.Outcome {
 				simrt.Probe("deadline_truncated")
 			}
 			streamedErr := sc.Knob("streamed", 0) == 1 && err != nil
-			if streamedErr && len(got) > 0 && (faulty || truncated) {
+			if streamedErr && len(got) > 0 {
 				// a streamed response may have delivered objects before failing: they must be permitted
+				e.SigExtra = " streamed_error_after_objects"
 				e.JudgeListObjects("srv", rq, stateFor(sc, rq), got, nil, true, limit, true)
+				e.SigExtra = ""
 			} else {
 				e.JudgeListObjects("srv", rq, stateFor(sc, rq), got, err, faulty, limit, truncated)
 			}
